@@ -1,4 +1,6 @@
 """C01 — Message codec is lossless for every defined IPMI message."""
+from array import array
+
 from .. import codec_common as cc
 from ..lib import lean
 from ..translate import registry
@@ -10,7 +12,15 @@ RULE = ('for every class of the live registry: Fits assignments (all-zero, all-m
         'alternating maxima of adjacent bit-field members / fields, every prefix-closed optional pattern, '
         'boundary and seeded random values, variable lengths from the length field) are set on the real object '
         'and sent to the Lean model; compared: encoded bytes, decoded values, re-encoded bytes.  A case is '
-        'distinct by (class, assignment) and non-trivial when the class has at least one field.')
+        'distinct by (class, assignment) and non-trivial when the class has at least one field.  Histories on ONE '
+        'message object: every generated assignment is also put on a long-lived instance of its class (re-assigned '
+        'field by field, encoded, the bytes decoded back into that same instance; instance renewed every 6 cases); '
+        'and for every class with a bit-field or an array-valued field, seeded histories of encode -> change -> '
+        'encode where the change is made in every way a caller can: bit members through the BitWrapper, array '
+        'fields in place (item / slice assignment, append, extend, pop, insert), plain attribute assignment, '
+        'decode_message into the used object.  After every step the bytes of encode_message / pack_message on the '
+        'used object must equal those of a FRESH instance carrying the same values (and the Lean model\'s), and '
+        'decode back to them.')
 ASSUMPTIONS = [
     'model of msgs/message.py + utils.ByteBuffer is hand-written (lean/PyIpmi/Model/Codec.lean) and tied by this correspondence run',
     'layouts are regenerated from the live registry each run (Gen/Registry.lean); field classes whose encode/decode/create differ from the known base classes abort generation',
@@ -103,6 +113,416 @@ def _judge(ctx, idx, cls, info, mode, vals, model_enc, model_dec_of):
             ctx.disagree('decode', case, md, want)
 
 
+# ---------------------------------------------------------------------------------------
+# histories on ONE message object (encode -> change -> encode ...)
+#
+# An op is a JSON list; the same op is applied to the real object (_h_real) and to the
+# canonical values (_h_canon), so a replay needs nothing but the ops:
+#   ['set', i, tok]            setattr(obj, field_i, value)            (None / int / bytes / array('B'))
+#   ['bit', i, k, v]           setattr(obj.field_i, member_k, v)       (through the per-instance BitWrapper)
+#   ['item', i, pos, v]        obj.field_i[pos] = v                    (in place)
+#   ['slice', i, a, b, hex]    obj.field_i[a:b] = array('B', bytes)    (in place; also deletes)
+#   ['append', i, v] ['extend', i, hex] ['pop', i] ['insert', i, pos, v]
+#   ['decode', hex, [toks]]    decode_message(obj, bytes)              (toks = the values those bytes encode)
+# ---------------------------------------------------------------------------------------
+ARR = ('bytes', 'varBytes', 'remaining')
+RENEW = 6          # the long-lived instance of the assignment stream is renewed every RENEW cases
+
+
+def _h_real(obj, fields, op):
+    from pyipmi.msgs.message import decode_message
+    k = op[0]
+    if k == 'decode':
+        decode_message(obj, lean.unhex(op[1]))
+        return
+    f = fields[op[1]]
+    if k == 'set':
+        v = cc.parse(op[2])
+        if v[0] == 'none':
+            setattr(obj, f.name, None)
+        elif v[0] == 'int':
+            setattr(obj, f.name, v[1])
+        elif f.prim[0] == 'str':
+            setattr(obj, f.name, bytes(v[1]))
+        else:
+            setattr(obj, f.name, array('B', v[1]))
+        return
+    if k == 'bit':
+        setattr(getattr(obj, f.name), f.prim[3][op[2]], op[3])
+        return
+    a = getattr(obj, f.name)
+    if k == 'item':
+        a[op[2]] = op[3]
+    elif k == 'slice':
+        a[op[2]:op[3]] = array('B', lean.unhex(op[4]))
+    elif k == 'append':
+        a.append(op[2])
+    elif k == 'extend':
+        a.extend(array('B', lean.unhex(op[2])))
+    elif k == 'pop':
+        a.pop()
+    elif k == 'insert':
+        a.insert(op[2], op[3])
+    else:
+        raise ValueError(op)
+
+
+def _h_canon(vals, fields, op):
+    k = op[0]
+    if k == 'decode':
+        return [cc.parse(t) for t in op[2]]
+    vals = list(vals)
+    i = op[1]
+    if k == 'set':
+        vals[i] = cc.parse(op[2])
+        return vals
+    if k == 'bit':
+        b = list(vals[i][1])
+        b[op[2]] = op[3]
+        vals[i] = ('bits', b)
+        return vals
+    a = bytearray(vals[i][1])
+    if k == 'item':
+        a[op[2]] = op[3]
+    elif k == 'slice':
+        a[op[2]:op[3]] = lean.unhex(op[4])
+    elif k == 'append':
+        a.append(op[2])
+    elif k == 'extend':
+        a.extend(lean.unhex(op[2]))
+    elif k == 'pop':
+        a.pop()
+    elif k == 'insert':
+        a.insert(op[2], op[3])
+    else:
+        raise ValueError(op)
+    vals[i] = ('arr', bytes(a))
+    return vals
+
+
+def _cond_atoms(c):
+    if c is None:
+        return []
+    if c[0] in ('bitEq', 'intEq'):
+        return [c]
+    return _cond_atoms(c[1]) + _cond_atoms(c[2])
+
+
+def _arr_inplace_ops(rng, i, a, b):
+    """ops that turn the array object holding `a` into one holding `b` without re-binding the attribute"""
+    ops = []
+    if len(b) < len(a):
+        if len(a) - len(b) <= 2 and rng.random() < 0.5:
+            ops += [['pop', i] for _ in range(len(a) - len(b))]
+        else:
+            ops.append(['slice', i, len(b), len(a), '-'])
+    n = min(len(a), len(b))
+    diff = [p for p in range(n) if a[p] != b[p]]
+    if len(diff) > 3 and rng.random() < 0.5:
+        ops.append(['slice', i, 0, n, lean.hexs(b[:n])])
+    else:
+        ops += [['item', i, p, b[p]] for p in diff]
+    if len(b) > len(a):
+        tail = b[len(a):]
+        r = rng.random()
+        if len(tail) <= 2 and r < 0.4:
+            ops += [['append', i, x] for x in tail]
+        elif len(tail) == 1 and r < 0.6:
+            ops.append(['insert', i, len(a), tail[0]])
+        else:
+            ops.append(['extend', i, lean.hexs(tail)])
+    return ops
+
+
+def _inplace_candidates(obj, fields, vals):
+    cond_bits = set((c[1], c[2]) for f in fields for c in _cond_atoms(f.cond) if c[0] == 'bitEq')
+    cands = []
+    for i, f in enumerate(fields):
+        if vals[i][0] == 'none':
+            continue
+        x = getattr(obj, f.name, None)
+        if f.prim[0] == 'bits':
+            ks = [k for k, w in enumerate(f.prim[2]) if w > 0 and (i, k) not in cond_bits]
+            if ks and x is not None:
+                cands.append((i, ks))
+        elif f.prim[0] in ARR and isinstance(x, array) and (f.prim[0] == 'remaining' or len(x) > 0):
+            cands.append((i, None))
+    return cands
+
+
+def _inplace_step(rng, obj, fields, vals):
+    """changes that assign NO attribute of the message: only members of field objects change"""
+    cands = _inplace_candidates(obj, fields, vals)
+    if not cands:
+        return None
+    ops = []
+    for i, ks in rng.sample(cands, rng.randrange(1, min(3, len(cands)) + 1)):
+        f = fields[i]
+        if ks is not None:
+            for k in rng.sample(ks, rng.randrange(1, len(ks) + 1)):
+                top = (1 << f.prim[2][k]) - 1
+                cur = vals[i][1][k]
+                v = rng.choice([x for x in set([0, 1, top, top - 1, cur ^ 1, rng.randrange(top + 1)])
+                                if 0 <= x <= top and x != cur])
+                ops.append(['bit', i, k, v])
+            continue
+        a = bytes(vals[i][1])
+        if f.prim[0] == 'remaining':
+            r = rng.random()
+            if r < 0.3 and a:
+                new = bytearray(a)
+                for p in rng.sample(range(len(a)), rng.randrange(1, min(4, len(a)) + 1)):
+                    new[p] = (new[p] + rng.randrange(1, 256)) % 256
+                new = bytes(new)
+            elif r < 0.6:
+                new = a + bytes(rng.randrange(256) for _ in range(rng.choice((1, 1, 2, 5))))
+            elif r < 0.8 and len(a) > 1:
+                new = a[:rng.randrange(1 if f.wrap == 'optional' else 0, len(a))]
+            else:
+                new = bytes(rng.randrange(256) for _ in range(rng.randrange(1, 12)))
+            if new == a:
+                new = a + b'\xaa'
+        else:
+            new = bytearray(a)
+            for p in rng.sample(range(len(a)), rng.randrange(1, min(4, len(a)) + 1)):
+                new[p] = (new[p] + rng.randrange(1, 256)) % 256
+            new = bytes(new)
+        ops += _arr_inplace_ops(rng, i, a, new)
+    return ops
+
+
+def _assign_step(rng, obj, fields, vals, new, p_inplace):
+    """move the object from `vals` to the complete assignment `new`: attributes are assigned, bit
+    members go through the wrapper, arrays are (with probability p_inplace) changed in place"""
+    ops = []
+    for i, f in enumerate(fields):
+        cur, nv = vals[i], new[i]
+        x = getattr(obj, f.name, None)
+        if nv[0] == 'none':
+            if cur[0] != 'none' or x is not None:
+                ops.append(['set', i, 'n'])
+        elif f.prim[0] == 'bits':
+            ops += [['bit', i, k, v] for k, v in enumerate(nv[1]) if cur[0] != 'bits' or cur[1][k] != v]
+        elif nv[0] == 'arr' and f.prim[0] in ARR and cur[0] == 'arr' and isinstance(x, array) \
+                and bytes(bytearray(x)) == bytes(cur[1]) and rng.random() < p_inplace:
+            ops += _arr_inplace_ops(rng, i, bytes(cur[1]), bytes(nv[1]))
+        elif cur != nv or rng.random() < 0.3 or p_inplace == 0 or f.wrap == 'cond':
+            ops.append(['set', i, cc.show(nv)])
+    return ops
+
+
+def _h_observe(obj, fields, after_decode):
+    """what the two public encoders say about the used object (+ the values it holds after a decode)"""
+    from pyipmi.msgs.message import encode_message, pack_message
+    try:
+        enc = ('ok', bytes(bytearray(encode_message(obj))))
+    except Exception as e:  # noqa
+        enc = (type(e).__name__,)
+    try:
+        pk = ('ok', bytes(bytearray(pack_message(obj))))
+    except Exception as e:  # noqa
+        pk = (type(e).__name__,)
+    held = None
+    if after_decode:
+        try:
+            held = cc.get_values(obj, fields)
+        except Exception as e:  # noqa
+            held = type(e).__name__
+    return enc, pk, held
+
+
+def _h_run(cls, fields, init, steps):
+    """execute a history on one real object; returns [(kind, vals, enc, pk, held, op_error)] per step
+    (step 0 = the initial assignment)"""
+    obj = cls()
+    vals = None
+    out = []
+    if init is None:
+        vals = cc.get_values(obj, fields)
+    else:
+        vals = [cc.parse(t) for t in init]
+        cc.set_values(obj, fields, vals)
+    enc, pk, held = _h_observe(obj, fields, False)
+    out.append(('init', vals, enc, pk, held, None))
+    for st in steps:
+        err = None
+        for op in st['ops']:
+            vals = _h_canon(vals, fields, op)
+            if err is None:
+                try:
+                    _h_real(obj, fields, op)
+                except Exception as e:  # noqa
+                    err = '%s in %s' % (type(e).__name__, op[0])
+        enc, pk, held = _h_observe(obj, fields, st['kind'] == 'decode')
+        out.append((st['kind'], vals, enc, pk, held, err))
+    return out, obj
+
+
+def _show_out(o):
+    return lean.hexs(o[1]) if o[0] == 'ok' else o[0]
+
+
+def _judge_history_step(ctx, cls, info, case, rec, model=None, verbose=False):
+    """one step of a history: the used object against a fresh one carrying the same values"""
+    kind, vals, enc, pk, held, err = rec
+    fields, name = info['fields'], info['name']
+    fresh = cc.encode_real(cls, fields, vals)
+    if verbose:
+        print('  step %-8s values %s' % (kind, ' '.join(cc.show(v) for v in vals)))
+        print('      used object : %s%s' % (_show_out(enc), '  (%s)' % err if err else ''))
+        print('      fresh object: %s' % _show_out(fresh))
+    if fresh[0] != 'ok':
+        ctx.count('history:fresh-encode-raises')      # reported by the assignment stream on fresh objects
+        return True
+    if model is not None and model != 'ok ' + lean.hexs(fresh[1]):
+        if not model.startswith('py:'):
+            ctx.disagree('history-encode', case, model, 'ok ' + lean.hexs(fresh[1]))
+    ok = True
+    if err is not None:
+        ctx.violate('C01:history:change-raises:%s' % name,
+                    'changing a field of a used %s object raises %s' % (name, err), case,
+                    expected='the change is applied', observed=err)
+        return False
+    if enc != fresh:
+        ctx.violate('C01:history:encode-after-%s:%s' % (kind, name),
+                    'encode_message on a used %s object (after %s) differs from the encoding of a fresh object '
+                    'carrying the same field values' % (name, kind), case,
+                    expected=lean.hexs(fresh[1]), observed=_show_out(enc))
+        ok = False
+    if pk != fresh:
+        ctx.violate('C01:history:pack-after-%s:%s' % (kind, name),
+                    'pack_message on a used %s object (after %s) differs from the encoding of a fresh object '
+                    'carrying the same field values' % (name, kind), case,
+                    expected=lean.hexs(fresh[1]), observed=_show_out(pk))
+        ok = False
+    if held is not None and not isinstance(held, str):
+        # a conditional field that is not on the wire has no value to compare (decode leaves the attribute alone)
+        held = [v if (f.wrap == 'cond' and not cc.eval_cond(f.cond, vals)) else h
+                for f, v, h in zip(fields, vals, held)]
+    if held is not None and held != vals:
+        ctx.violate('C01:history:decode-into-used-object:%s' % name,
+                    'decode_message into a used %s object does not leave it with the decoded values' % name, case,
+                    expected=[cc.show(v) for v in vals],
+                    observed=held if isinstance(held, str) else [cc.show(v) for v in held])
+        ok = False
+    if ok:
+        dec = cc.decode_real(cls, fields, enc[1])
+        if dec[0] != 'ok' or dec[1] != vals:
+            ctx.violate('C01:history:roundtrip-after-%s:%s' % (kind, name),
+                        'the bytes encoded from a used %s object do not decode back to its field values' % name, case,
+                        expected=[cc.show(v) for v in vals],
+                        observed=dec[0] if dec[0] != 'ok' else [cc.show(v) for v in dec[1]])
+            ok = False
+    return ok
+
+
+def _gen_history(rng, cls, fields, init_vals, kinds, fresh_start=False):
+    """generate (while executing, to see which attribute objects exist) one history; returns
+    (init tokens or None, steps)"""
+    obj = cls()
+    if fresh_start:
+        vals = cc.get_values(obj, fields)
+        init = None
+    else:
+        vals = list(init_vals)
+        cc.set_values(obj, fields, vals)
+        init = [cc.show(v) for v in vals]
+    steps = []
+    from pyipmi.msgs.message import encode_message
+    for kind in kinds:
+        try:
+            encode_message(obj)           # the encode BEFORE the change is what fills a cache, if there is one
+        except Exception:  # noqa
+            pass
+        ops = None
+        if kind == 'inplace':
+            ops = _inplace_step(rng, obj, fields, vals)
+            if ops is None:
+                kind = 'mixed'
+        if kind in ('mixed', 'assign'):
+            new = cc.assignment(fields, rng, rng.choice(('boundary', 'random', 'max', 'zero')))
+            ops = _assign_step(rng, obj, fields, vals, new, 0.7 if kind == 'mixed' else 0)
+        if kind == 'decode':
+            new = cc.assignment(fields, rng, rng.choice(('boundary', 'random')))
+            real = cc.encode_real(cls, fields, new)
+            if real[0] != 'ok':
+                continue
+            ops = [['decode', lean.hexs(real[1]), [cc.show(v) for v in new]]]
+        if not ops:
+            continue
+        for op in ops:
+            vals = _h_canon(vals, fields, op)
+            try:
+                _h_real(obj, fields, op)
+            except Exception:  # noqa  (judged when the history is run)
+                pass
+        steps.append({'kind': kind, 'ops': ops})
+    return init, steps
+
+
+def _run_histories(ctx, drv, rng, idx, cls, info, cases):
+    fields, name = info['fields'], info['name']
+    hists = []          # (tag, init, steps)
+    # (a) every generated assignment on a long-lived instance: re-assign, encode, decode the bytes back into it
+    for k in range(0, len(cases), RENEW):
+        chunk = cases[k:k + RENEW]
+        obj = cls()
+        vals = list(chunk[0][1])
+        cc.set_values(obj, fields, vals)
+        steps = []
+        for j, (_, new) in enumerate(chunk[1:]):
+            ops = _assign_step(rng, obj, fields, vals, new, 0)
+            for op in ops:
+                vals = _h_canon(vals, fields, op)
+                try:
+                    _h_real(obj, fields, op)
+                except Exception:  # noqa
+                    pass
+            steps.append({'kind': 'assign', 'ops': ops})
+            if j % 2 == 0:
+                real = cc.encode_real(cls, fields, new)
+                if real[0] == 'ok':
+                    op = ['decode', lean.hexs(real[1]), [cc.show(v) for v in new]]
+                    try:
+                        _h_real(obj, fields, op)
+                    except Exception:  # noqa
+                        pass
+                    steps.append({'kind': 'decode', 'ops': [op]})
+        hists.append(('long-lived', [cc.show(v) for v in chunk[0][1]], steps))
+    # (b) encode -> change -> encode histories for classes whose fields can change without an assignment
+    if any(f.prim[0] == 'bits' or f.prim[0] in ARR for f in fields):
+        n_h, n_s = (5, 6) if ctx.tier == 'quick' else (60, 8)
+        for h in range(n_h):
+            if h == 0:
+                kinds = ['inplace', 'inplace', 'decode', 'inplace', 'mixed', 'inplace']
+            else:
+                kinds = [rng.choice(('inplace', 'inplace', 'mixed', 'decode', 'assign')) for _ in range(n_s)]
+            start = cc.assignment(fields, rng, ('zero', 'max', 'boundary', 'random')[h % 4])
+            init, steps = _gen_history(rng, cls, fields, start, kinds, fresh_start=(h == 1))
+            hists.append(('change', init, steps))
+    # execute, ask the model for every step, judge
+    recs = []
+    for tag, init, steps in hists:
+        out, _ = _h_run(cls, fields, init, steps)
+        for k, rec in enumerate(out):
+            if tag == 'long-lived' and k == 0:
+                continue
+            if init is None and k == 0:
+                # the defaults of a fresh object need not be an in-range assignment (e.g. '' for a 16-byte string)
+                d = cc.decode_real(cls, fields, rec[2][1]) if rec[2][0] == 'ok' else ('x',)
+                if d[0] != 'ok' or d[1] != rec[1]:
+                    break
+            recs.append((tag, {'class': name, 'op': 'history', 'init': init, 'steps': steps[:k], 'judged': k}, rec))
+    models = drv.ask_many(['enc %d %s' % (idx, ' '.join(cc.show(v) for v in rec[1])) for _, _, rec in recs])
+    for (tag, case, rec), m in zip(recs, models):
+        ctx.case((name, 'history', tag, repr(case['init']), repr(case['steps'])))
+        ctx.count('history:%s:%s' % (tag, rec[0]))
+        for st in case['steps'][-1:]:
+            for op in st['ops']:
+                ctx.count('history-op:' + op[0])
+        _judge_history_step(ctx, cls, info, case, rec, m)
+
+
 def _registry_facts(ctx, snap):
     """Python-side oracle for the construction and pairing clauses (used for replays)."""
     by_id = {}
@@ -152,6 +572,7 @@ def run(ctx):
                 if f.wrap == 'cond':
                     ctx.count('conditional:' + ('taken' if cc.eval_cond(f.cond, vals) else 'skipped'))
             _judge(ctx, idx, cls, info, mode, vals, me, md)
+        _run_histories(ctx, drv, ctx.rng('c01-history/%s' % info['name']), idx, cls, info, cases)
         if idx % 40 == 0:
             ctx.sample({'class': info['name'], 'values': [cc.show(v) for v in cases[-1][1]], 'model_bytes': encs[-1]})
         ctx.count('classes_with_fields')
@@ -192,6 +613,22 @@ def replay(ctx, v):
         hit = [x for x in c2.violations if x['signature'] == v['signature']]
         print('pairing %s: %s' % (info['name'], hit[0]['what'] if hit else 'ok'))
         return bool(hit)
+    if case.get('op') == 'history':
+        c2 = ctx.__class__('C01', 'quick', 0)
+        print('class %s, one object: %s, then %d step(s)' % (
+            info['name'], 'fresh instance' if case['init'] is None else 'values ' + ' '.join(case['init']),
+            len(case['steps'])))
+        for st in case['steps']:
+            print('  %-8s %s' % (st['kind'], ' ; '.join(' '.join(str(x) for x in op[:2] if not isinstance(x, list))
+                                                          + ''.join(' %s' % x for x in op[2:] if not isinstance(x, list))
+                                                          for op in st['ops'])))
+        out, _ = _h_run(cls, info['fields'], case['init'], case['steps'])
+        for k, rec in enumerate(out):
+            if k >= 1 or case['init'] is not None:
+                _judge_history_step(c2, cls, info, case, rec, None, verbose=True)
+        for x in c2.violations:
+            print('  ' + x['what'])
+        return bool(c2.violations)
     vals = [cc.parse(t) for t in case['values']]
     c2 = ctx.__class__('C01', 'quick', 0)
     me = v.get('expected') if v['signature'].startswith('C01:wire-format') else None
